@@ -6,4 +6,5 @@ func init() {
 	replayers["diff"] = vdiff.Replay
 	recorders["diff"] = vdiff.Record
 	replayers["difffault"] = vdiff.ReplayFault
+	replayers["diffcli"] = vdiff.ReplayCLI
 }
